@@ -18,9 +18,10 @@ ALL_TYPES = ('**kern',) * 5 + ('**text', '**dynam', '**dyn', '**harm', '**mxhm',
 
 CLEFS = ['*clefG2', '*clefF4', '*clefC3', '*clefC4', '*clefC1', '*clefC2', '*clefF3', '*clefGv2', '*clefG^2',
          '*clefGvv2', '*clefFv4', '*clefG^^2', '*clefG2', '*clefF4']
-KEYSIGS = ['*k[]', '*k[f#]', '*k[f#c#]', '*k[b-]', '*k[b-e-a-]', '*k[f#c#g#d#]', '*k[b-e-]', '*kcancel', '*k[f#]X']
-METERS = ['*M4/4', '*M3/4', '*M6/8', '*M2/2', '*M12/8', '*M3+2/8', '*M2/4', '*M5/4']
-METERSYMS = ['*met(c)', '*met(c|)', '*met(O)', '*met(C|)', '*met(O.)', '*met(C3/2)']
+KEYSIGS = ['*k[]', '*k[f#]', '*k[f#c#]', '*k[b-]', '*k[b-e-a-]', '*k[f#c#g#d#]', '*k[b-e-]', '*kcancel', '*k[f#]X',
+           '*k[f#c#g#d#a#e#b#]', '*k[b-e-a-d-g-c-f-]']
+METERS = ['*M4/4', '*M3/4', '*M6/8', '*M2/2', '*M12/8', '*M3+2/8', '*M2/4', '*M5/4', '*M3+2+2/8', '*M4/2']
+METERSYMS = ['*met(c)', '*met(c|)', '*met(O)', '*met(C|)', '*met(O.)', '*met(C3/2)', '*M(c)', '*M(c|)', '*M(C|)', '*M(O)']
 TANDEMS = ['*MM120', '*MM60', '*tb8', '*staff1', '*staff2', '*staff1/2', '*I"Piano', '*Ivioln', '*>A', '*>[A,B,A]',
            '*>norep[A,B]', '*>1st ending', '*ped', '*Xped', '*8va', '*X8va', '*8ba', '*lh', '*rh', '*cue', '*Xcue',
            '*C:', '*a:', '*F#:', '*b-:', '*C:dor', '*Trd1c2', '*ITrd-1c-2', '*part1', '*group2', '*rscale:1/2',
